@@ -217,6 +217,10 @@ func (cr *CrashRun) CheckImage(img *Disk, k int, opts ImageOpts) (int, *FsckRepo
 			}
 		}
 	})
+	if o.Slow {
+		St.Class("call_too_slow_for_the_harness_not_judged")
+		return -1, nil, nil
+	}
 	if o.Bad() {
 		return -1, nil, fmt.Errorf("recovery: %v", o)
 	}
@@ -238,6 +242,9 @@ func (cr *CrashRun) CheckImage(img *Disk, k int, opts ImageOpts) (int, *FsckRepo
 					// The first recovery acknowledged nothing new, and what it showed must not disappear.
 					err2 = CompareTree(s.API(), cr.TL[matched].State, true)
 				})
+				if o.Slow {
+					continue
+				}
 				if o.Bad() {
 					return matched, rep, fmt.Errorf("second crash during recovery (after %d of its %d events, %s): %v", k2, len(rt), v.Name, o)
 				}
